@@ -47,6 +47,12 @@ std::string script_to_text(const Script& s)
         o << "op\t" << op.kind << "\t" << op.trig << "\t" << op.point << "\t" << op.k << "\t" << int(op.hold) << "\t" << esc(op.line) << "\n";
         for (auto& f : op.faults) o << "fault\t" << f.kind << "\t" << f.k << "\t" << f.a << "\t" << f.b << "\n";
     }
+    if (!s.sched.empty())
+    {
+        o << "sched\t" << s.sched.size() << "\t";
+        for (size_t i = 0; i < s.sched.size(); ++i) o << (i ? " " : "") << s.sched[i].first << ":" << s.sched[i].second;
+        o << "\n";
+    }
     return o.str();
 }
 
@@ -118,6 +124,17 @@ bool script_from_text(const std::string& text, Script& s, std::string& err)
             ft.a = atoll(f[3].c_str());
             ft.b = atoll(f[4].c_str());
             s.ops.back().faults.push_back(ft);
+        }
+        else if (f[0] == "sched" && f.size() >= 3)
+        {
+            std::istringstream ss(f[2]);
+            std::string item;
+            while (ss >> item)
+            {
+                size_t c = item.find(':');
+                if (c == std::string::npos) continue;
+                s.sched.push_back({atoi(item.substr(0, c).c_str()), atoll(item.substr(c + 1).c_str())});
+            }
         }
         // other record kinds (meta, expect) are for humans and the gate
     }
